@@ -1,5 +1,5 @@
 (** C08/Proofs.v — lemmas behind C08/Props.v. *)
-From EV Require Import Base.StoreSM C33.Model C33.Spec C33.Lemmas C33.Proofs C08.Module C08.PropertyModel.
+From EV Require Import Base.StoreSM C33.Model C33.Spec C33.Lemmas C33.Proofs C08.Module C08.PropertyModel C08.MemberModel.
 Local Open Scope N_scope.
 
 (** ---- the module index, through the generic store theorems ---- *)
@@ -225,3 +225,27 @@ Proof.
   destruct (p_remove_frame f s owner HW Hl) as [H1 H2].
   rewrite p_add_frame; [exact H1 | exact H2 | exact Hnot].
 Qed.
+
+(** ---- LuaMemberIndex: what [remove(file)] does to one One/Many item ---- *)
+Lemma member_prune_item_exact : forall f it,
+  match prune_item f it with
+  | Some it' => forall m, In m (item_ids it') <-> In m (item_ids it) /\ fst m <> f
+  | None => forall m, In m (item_ids it) -> fst m = f
+  end.
+Proof.
+  intros f [m0|ids]; cbn [prune_item item_ids].
+  - destruct (N.eqb_spec (fst m0) f) as [E|Hne].
+    + intros m [<-|[]]. exact E.
+    + intro m. cbn [item_ids In]. split; [intros [<-|[]]; auto | intros [[<-|[]] _]; auto].
+  - destruct (filter (fun m => negb (fst m =? f)) ids) as [|x r] eqn:E; cbn [is_nil item_ids].
+    + intros m Hm. destruct (N.eqb_spec (fst m) f) as [|Hne]; [assumption|]. exfalso.
+      assert (Hin : In m (filter (fun m => negb (fst m =? f)) ids)).
+      { apply filter_In. split; [exact Hm|]. destruct (N.eqb_spec (fst m) f); [contradiction | reflexivity]. }
+      rewrite E in Hin. destruct Hin.
+    + intro m. rewrite <- E, filter_In. split; intros [H1 H2]; split; auto.
+      * destruct (N.eqb_spec (fst m) f); [discriminate | assumption].
+      * destruct (N.eqb_spec (fst m) f); [contradiction | reflexivity].
+Qed.
+
+Lemma member_clear_is_init : forall s, mb_clear s = mb_init.
+Proof. reflexivity. Qed.
